@@ -31,6 +31,10 @@ type c18Fault struct {
 	at    int64 // F or Q
 	whole bool  // all-or-nothing: a write that would be cut is refused completely (error alone)
 	late  bool  // late failure: the device stores every byte offered but still reports its error
+	// silent: the device stores fewer bytes than offered and reports NO error (io.WriterAt forbids that, the property's
+	// quantifier - "underlying writers that fail or write short at any call" - admits it): the count and the cursor
+	// follow the bytes that passed, the error is nil unless the section end truncated the request
+	silent bool
 }
 
 func (f c18Fault) String() string {
@@ -40,6 +44,9 @@ func (f c18Fault) String() string {
 	}
 	if f.late {
 		st = "all-bytes-stored-but-error-reported"
+	}
+	if f.silent {
+		st = "short-count-without-error"
 	}
 	switch f.kind {
 	case 1:
@@ -132,7 +139,7 @@ func (d *c18Dev) WriteAt(p []byte, off int64) (int, error) {
 		d.op = append(d.op, c18Assign{off + int64(i), p[i]})
 	}
 	d.accepted += int64(k)
-	if failed {
+	if failed && !d.fault.silent {
 		return k, errC18Dev
 	}
 	return k, nil
@@ -325,7 +332,7 @@ func (c *c18Mon) Write(n int) bool {
 		exp = pp[:k]
 		expN = k
 		switch {
-		case failed:
+		case failed && !c.dev.fault.silent:
 			expErr = c.faultClass()
 		case trunc:
 			expErr = c18Short
@@ -397,7 +404,7 @@ func (c *c18Mon) WriteAt(n int, off int64) bool {
 		exp = pp[:k]
 		expN = k
 		switch {
-		case failed:
+		case failed && !c.dev.fault.silent:
 			expErr = c.faultClass()
 		case trunc:
 			expErr = c18Short
@@ -535,7 +542,7 @@ func c18Plans() []c18Plan {
 		for _, n := range c18Lens {
 			out = append(out, c18Plan{base: b, n: n})
 			for f := b - 1; f <= b+n+1; f++ {
-				out = append(out, c18Plan{base: b, n: n, fault: c18Fault{kind: 1, at: f}}, c18Plan{base: b, n: n, fault: c18Fault{kind: 1, at: f, whole: true}}, c18Plan{base: b, n: n, fault: c18Fault{kind: 1, at: f, late: true}})
+				out = append(out, c18Plan{base: b, n: n, fault: c18Fault{kind: 1, at: f}}, c18Plan{base: b, n: n, fault: c18Fault{kind: 1, at: f, whole: true}}, c18Plan{base: b, n: n, fault: c18Fault{kind: 1, at: f, late: true}}, c18Plan{base: b, n: n, fault: c18Fault{kind: 1, at: f, silent: true}})
 			}
 			for q := int64(0); q <= n+1; q++ {
 				out = append(out, c18Plan{base: b, n: n, fault: c18Fault{kind: 2, at: q, whole: q&1 == 1}}, c18Plan{base: b, n: n, fault: c18Fault{kind: 2, at: q, late: true}})
@@ -550,7 +557,7 @@ func init() {
 	register(&mon.Prop{
 		ID:    "C18",
 		Level: "fault_enumeration",
-		Rule: "sections (base,n) in {0,1,7,1000} x {0,1,2,8,29}; for each: no fault, EVERY refusal position F in [base-1, base+n+1] x {partial, all-or-nothing, all bytes stored but error reported} and EVERY quota in [0, n+1] x 2 styles (" + fmt.Sprint(len(plans)) + " fault plans) x seeded histories of 1..30 ops over " +
+		Rule: "sections (base,n) in {0,1,7,1000} x {0,1,2,8,29}; for each: no fault, EVERY refusal position F in [base-1, base+n+1] x {partial, all-or-nothing, all bytes stored but error reported, short count without error} and EVERY quota in [0, n+1] x 2 styles (" + fmt.Sprint(len(plans)) + " fault plans) x seeded histories of 1..30 ops over " +
 			"Write/WriteAt/Seek with buffer lengths {0, 1, exactly-to-limit, limit+1, random}, every whence in {-1,0,1,2,3} and offsets around 0, cursor and end; cursor and Size read back after EVERY op; " +
 			"larger sections (n up to 5000) with sampled fault positions; AtToWriter(w, off) driven with Write histories. Non-trivial+distinct = hash of (plan, history) with >= 2 ops + distinct (op, cursor relation, truncation, fault, outcome) transitions.",
 		Assumptions: []string{"offsets kept within +-2^40 so int64 wrap-around (unspecified) is never exercised", "WriteAt with a negative offset: only 'nothing written, count 0' is asserted (the statement does not name the error)",
@@ -636,7 +643,7 @@ func c18History(w *mon.W, p c18Plan, idx int) {
 		w.Bucket("section/n=0")
 	}
 	nops := 1 + r.Intn(30)
-	h := gen.Hash64(uint64(p.base), uint64(p.n), uint64(p.fault.kind), uint64(p.fault.at), uint64(b2i(p.fault.whole)), uint64(b2i(p.fault.late)))
+	h := gen.Hash64(uint64(p.base), uint64(p.n), uint64(p.fault.kind), uint64(p.fault.at), uint64(b2i(p.fault.whole)), uint64(b2i(p.fault.late)), uint64(b2i(p.fault.silent)))
 	if p.fault.late {
 		w.Bucket("fault/late-error-style")
 	}
